@@ -118,9 +118,15 @@ func (tc *Config) AddTrust(credentialType ssi.URI, issuer ssi.URI) error {
 		return nil
 	}
 
-	tc.issuersPerType[tString] = append(tc.issuersPerType[tString], issuer.String())
+	previous := tc.issuersPerType[tString]
+	tc.issuersPerType[tString] = append(previous[:len(previous):len(previous)], issuer.String())
 
-	return tc.save()
+	if err := tc.save(); err != nil {
+		// not persisted: keep memory and file in line, so that a repeated call tries again
+		tc.issuersPerType[tString] = previous
+		return err
+	}
+	return nil
 }
 
 // RemoveTrust removes trust in a specific Issuer for a credential type.
@@ -143,7 +149,13 @@ func (tc *Config) RemoveTrust(credentialType ssi.URI, issuer ssi.URI) error {
 		}
 	}
 
+	previous := tc.issuersPerType[tString]
 	tc.issuersPerType[tString] = issuerList
 
-	return tc.save()
+	if err := tc.save(); err != nil {
+		// not persisted: keep memory and file in line, so that a repeated call tries again
+		tc.issuersPerType[tString] = previous
+		return err
+	}
+	return nil
 }
